@@ -253,7 +253,25 @@ pub fn read_and_apply(out: &[u8], old: &[u8], new: &[u8], radius: usize, header:
     Ok((hunks.len(), markers))
 }
 
+/// an io::Write that accepts at most `max` bytes per call (short writes are legal)
+struct Trickle {
+    out: Vec<u8>,
+    max: usize,
+}
+impl std::io::Write for Trickle {
+    fn write(&mut self, buf: &[u8]) -> std::io::Result<usize> {
+        let n = buf.len().min(self.max);
+        self.out.extend_from_slice(&buf[..n]);
+        Ok(n)
+    }
+    fn flush(&mut self) -> std::io::Result<()> {
+        Ok(())
+    }
+}
+
 struct Rendered {
+    trickle: Vec<u8>,
+    trickle_hunks: Vec<u8>,
     writer: Vec<u8>,
     display: String,
     per_hunk_writer: Vec<u8>,
@@ -271,6 +289,11 @@ fn render<'a, T: DiffableStr + ?Sized + 'a>(d: &'a TextDiff<'a, 'a, 'a, T>, radi
     }
     let mut writer = vec![];
     ud.to_writer(&mut writer).unwrap();
+    let max = [1usize, 3, 7, 64][(radius + header.map_or(0, |h| h.0.len())) % 4];
+    let mut tw = Trickle { out: vec![], max };
+    ud.to_writer(&mut tw).unwrap();
+    let trickle = tw.out;
+    let mut th = Trickle { out: vec![], max };
     let display = ud.to_string();
     let mut per_hunk_writer = vec![];
     let mut per_hunk_display = String::new();
@@ -286,6 +309,7 @@ fn render<'a, T: DiffableStr + ?Sized + 'a>(d: &'a TextDiff<'a, 'a, 'a, T>, radi
         }
         let mut w = vec![];
         h.to_writer(&mut w).unwrap();
+        h.to_writer(&mut th).unwrap();
         let s = h.to_string();
         let hs = format!("{}\n", h.header());
         if !s.starts_with(&hs) || !w.starts_with(hs.as_bytes()) {
@@ -301,7 +325,7 @@ fn render<'a, T: DiffableStr + ?Sized + 'a>(d: &'a TextDiff<'a, 'a, 'a, T>, radi
     }
     let mut nohint_writer = vec![];
     ud2.to_writer(&mut nohint_writer).unwrap();
-    Rendered { writer, display, per_hunk_writer, per_hunk_display, headers_ok, nohint_writer, swaps: similar::verif::swap::swaps() }
+    Rendered { trickle, trickle_hunks: th.out, writer, display, per_hunk_writer, per_hunk_display, headers_ok, nohint_writer, swaps: similar::verif::swap::swaps() }
 }
 
 fn render_case(c: &Case) -> Result<Rendered, String> {
@@ -341,6 +365,19 @@ fn judge(c: &Case, r: &Rendered) -> Result<(usize, usize), (Kind, String)> {
         }
     } else if r.display != String::from_utf8_lossy(&r.writer) {
         return Err(other(format!("Display {:?} != lossy decoding of to_writer {:?}", r.display, escape_bytes(&r.writer))));
+    }
+    if r.trickle != r.writer {
+        return Err(other(format!("to_writer into a writer that accepts only a few bytes per call gives {:?}, into a Vec {:?}", escape_bytes(&r.trickle[..r.trickle.len().min(200)]), escape_bytes(&r.writer[..r.writer.len().min(200)]))));
+    }
+    {
+        // per-hunk writes into the short-writing writer: the body without the file header
+        let body = match header {
+            Some((a, b)) if !r.writer.is_empty() => &r.writer[format!("--- {}\n+++ {}\n", a, b).len()..],
+            _ => &r.writer[..],
+        };
+        if r.trickle_hunks != body {
+            return Err(other("UnifiedDiffHunk::to_writer into a short-writing writer loses or reorders bytes".into()));
+        }
     }
     if r.per_hunk_writer != r.writer {
         return Err(other(format!("concatenated UnifiedDiffHunk::to_writer {:?} != UnifiedDiff::to_writer {:?}", escape_bytes(&r.per_hunk_writer), escape_bytes(&r.writer))));
@@ -422,9 +459,32 @@ fn strat(tier: Tier) -> BoxedStrategy<Case> {
         3 => crate::gen::line_text_pair(tier.pick(40, 120), true),
         1 => crate::gen::text_pair(30, false),
     ];
-    (texts, 0u8..3, any::<bool>(), radius, 0u8..3)
-        .prop_map(|((old, new), alg, bytes, radius, header)| Case { old, new, alg, bytes, radius, header })
-        .boxed()
+    let radius2 = prop_oneof![Just(0usize), Just(1usize), Just(3usize)];
+    let plain = (texts, 0u8..3, any::<bool>(), radius, 0u8..3).prop_map(|((old, new), alg, bytes, radius, header)| Case { old, new, alg, bytes, radius, header });
+    // many distinct lines (> 255 ids) in texts of 101..600 lines
+    let distinct = (distinct_line_case(tier.pick(300, 600)), radius2.clone(), 0u8..3).prop_map(|(t, radius, header)| Case { old: t.old, new: t.new, alg: t.alg, bytes: t.bytes, radius, header });
+    // a very long line (more than 8 KiB) among short ones
+    let long_line = (crate::gen::line_text_pair(8, false), any::<u16>(), 8192usize..9300, 0u8..3, 0u8..3, any::<bool>(), radius2).prop_map(|((old, new), at, len, which, alg, bytes, radius)| {
+        let long: Vec<u8> = std::iter::repeat(b'x').take(len).chain(std::iter::once(b'\n')).collect();
+        let put = |t: &BStr, at: u16| {
+            let lines = split_lines(&t.0);
+            let p = crate::gen::pos(at, lines.len());
+            let mut v: Vec<u8> = lines[..p].concat();
+            if !v.is_empty() && !matches!(v.last(), Some(b'\n') | Some(b'\r')) {
+                v.push(b'\n');
+            }
+            v.extend_from_slice(&long);
+            v.extend_from_slice(&lines[p..].concat());
+            BStr(v)
+        };
+        let (o, n) = match which {
+            0 => (put(&old, at), new),
+            1 => (old, put(&new, at)),
+            _ => (put(&old, at), put(&new, at)),
+        };
+        Case { old: o, new: n, alg, bytes, radius, header: 0 }
+    });
+    prop_oneof![200 => plain, 2 => distinct, 1 => long_line].boxed()
 }
 
 const LINES: &[&[u8]] = &[b"a\n", b"b\n", b"a\r\n", b"a"];
@@ -452,7 +512,7 @@ impl Prop for C05 {
     type Case = Case;
     const ID: &'static str = "C05";
     fn rule() -> String {
-        "cases = (old, new line texts, algorithm, str | [u8], context radius in {0,1,2,3,4,7,50}, header in {none, (a,b), names with space/tab/non-ASCII}); texts are line lists with LF/CRLF/CR terminators, optional missing final newline, many repeated lines, diff-looking lines ('-y', '+z', '@@ -1 +1 @@', '\\ No newline at end of file', '--- a'), for [u8] invalid UTF-8; new = independent or mutate(old) at line level; enumeration of all pairs of texts of <= 4 (thorough 5) lines over {a LF, b LF, a CRLF, a (unterminated)} x radius {0,1}. Oracle: independent reader (file header, hunk headers, body lines, marker) and strict applier: counts == body counts, starts == true positions, increasing and non-overlapping, every context/deletion line equals the old line at that position, result == new byte for byte, marker exactly on unterminated lines, equal inputs => empty output, each hunk has a change, <= radius context at the edges, deletions before insertions; Display == writer (UTF-8) or == lossy(writer); per-hunk rendering and hunk.header() agree; missing_newline_hint(false) == output without marker lines; udiff::unified_diff == builder. Header start/count failures are re-executed with the swap repair on: if they vanish they are known finding D7. Non-trivial = at least one hunk; distinct = distinct serialized case.".into()
+        "cases = (old, new line texts, algorithm, str | [u8], context radius in {0,1,2,3,4,7,50}, header in {none, (a,b), names with space/tab/non-ASCII}); texts are line lists with LF/CRLF/CR terminators, optional missing final newline, many repeated lines, diff-looking lines ('-y', '+z', '@@ -1 +1 @@', '\\ No newline at end of file', '--- a'), for [u8] invalid UTF-8; new = independent or mutate(old) at line level; plus texts of 101-300/600 almost-all-distinct lines, texts containing a line of more than 8 KiB, and two fixed 70 000-line texts; enumeration of all pairs of texts of <= 4 (thorough 5) lines over {a LF, b LF, a CRLF, a (unterminated)} x radius {0,1}. Oracle: independent reader (file header, hunk headers, body lines, marker) and strict applier: counts == body counts, starts == true positions, increasing and non-overlapping, every context/deletion line equals the old line at that position, result == new byte for byte, marker exactly on unterminated lines, equal inputs => empty output, each hunk has a change, <= radius context at the edges, deletions before insertions; Display == writer (UTF-8) or == lossy(writer); to_writer into a writer that accepts only 1/3/7/64 bytes per call == to_writer into a Vec; per-hunk rendering and hunk.header() agree; missing_newline_hint(false) == output without marker lines; udiff::unified_diff == builder. Header start/count failures are re-executed with the swap repair on: if they vanish they are known finding D7. Non-trivial = at least one hunk; distinct = distinct serialized case.".into()
     }
     fn assumptions() -> Vec<String> {
         vec![
@@ -470,6 +530,16 @@ impl Prop for C05 {
                     exhaustive: false,
                     gen: enum_small,
                 },
+            },
+            Stage {
+                name: "huge",
+                kind: StageKind::Enumerate { scope: "2 fixed line texts with 70 000 distinct lines (token ids beyond 16 bits), radius 3".into(), exhaustive: true, gen: |_t, f| {
+                    for t in huge_line_cases() {
+                        if !f(Case { old: t.old, new: t.new, alg: t.alg, bytes: t.bytes, radius: 3, header: 1 }) {
+                            return;
+                        }
+                    }
+                } },
             },
             Stage { name: "random", kind: StageKind::Random { strategy: strat, cases: tier.pick(600_000, 4_000_000) } },
         ]
